@@ -79,7 +79,7 @@ class Profiles(object):
         'escape': r'{unicode}|\\[ -~\u0080-\u01ff]',
         #   'escape': r'{unicode}|\\[ -~\200-\4177777]',
         'int': r'[-]?\d+',
-        'nmchar': r'[\w-]|{nonascii}|{escape}',
+        'nmchar': r'[0-9a-z_-]|{nonascii}|{escape}',
         'num': r'[-]?\d+|[-]?\d*\.\d+',
         'positivenum': r'\d+|\d*\.\d+',
         'number': r'{num}',
